@@ -47,7 +47,7 @@ func (c14) Runs(tier string) int {
 	if tier == "thorough" {
 		return 60000
 	}
-	return 1500
+	return 3000
 }
 func (c14) RequiredProbes(string) []string {
 	return []string{"probe_allowed", "probe_denied", "invalid_document_refused"}
